@@ -34,7 +34,9 @@ THEOREMS = [
 ]
 RULE = ("bind cases: every one of the mixin methods x call shapes (optional arguments omitted / given positionally / by keyword / "
         "given explicitly as the default, varargs of 0-2 items), opaque tokens as values; run cases: every mixin method x generated "
-        "arguments x generated cold timelines, fluent form vs piped form on separate TestSchedulers. A bind case is non-trivial "
+        "arguments x generated cold timelines, fluent form vs piped form on separate TestSchedulers; for every parameter the method body tests "
+        "(`is None`, `is NotSet`, truthiness; read off the AST independently of shape recognition) every sentinel-like value None/0/''/[]/False "
+        "passed explicitly over an empty and a non-empty source. A bind case is non-trivial "
         "when the fluent call binds (no TypeError); a run case is non-trivial when the fluent form delivered at least one notification "
         "or raised at construction. Distinct by canonical JSON of the case.")
 ASSUMPTIONS = [
@@ -246,6 +248,9 @@ def gen_msgs(rng, kind="int", allow_error=True, maxlen=6):
     return msgs
 
 
+SENTINELS = [None, 0, "", [], False]  # values a sloppy guard (`not x`, `x is None or ...`, `== None`) confuses with "not given"
+
+
 def _op_has_default(m, p):
     o = next((o for o in table()["ops"] if o["name"] == ALIAS.get(m["name"], m["name"])), None)
     if o is None:
@@ -275,6 +280,16 @@ def gen_run_cases(rng, tier):
                         explicit.append(p["name"])
             yield {"op": "run", "method": m["name"], "omit": omit, "explicit": explicit, "seed": rng.randrange(1 << 30),
                    "src": gen_msgs(rng), "nstar": rng.choice([0, 1, 2])}
+        # parameters the method body tests (`is None`, `is NotSet`, truthiness ...): every sentinel-like value, explicitly passed,
+        # over an empty and a non-empty source (that is where a wrong guard becomes observable)
+        for g in m.get("guarded", []):
+            p = next((p for p in m["params"] if p["name"] == g and p["kind"] in ("pos", "kwonly")), None)
+            if p is None:
+                continue
+            for si in range(len(SENTINELS)):
+                for src in ([[5, ["C"]]], gen_msgs(rng, allow_error=False, maxlen=4) or [[5, ["C"]]]):
+                    yield {"op": "run", "method": m["name"], "omit": [], "explicit": [], "seed": rng.randrange(1 << 30),
+                           "src": src, "nstar": rng.choice([0, 1]), "sentinel": {g: si}}
 
 
 class Ctx:
@@ -487,6 +502,9 @@ def build_args(ctx, mrow):
             continue
         if n in case["explicit"]:
             v = _val(p["dflt"]) if p["dflt"] in CONSTS or p["dflt"] == "NotSet" else v
+        if n in case.get("sentinel", {}):
+            s = SENTINELS[case["sentinel"][n]]
+            v = list(s) if isinstance(s, list) else s
         if p["kind"] == "kwonly" or broke:
             kw[n] = v
         else:
@@ -692,6 +710,8 @@ def nontrivial(case, out):
 
 def bucket(case, out):
     yield case["op"]
+    if case.get("sentinel"):
+        yield "run:sentinel-for-guarded-parameter"
     if case["op"] == "bind":
         yield "bind:" + ("bound" if "op" in out["fluent"] else "typeerror")
         if "op" in out["fluent"] and "typeerror" in out["piped"]:
@@ -721,6 +741,11 @@ def shrink(case):
             c = dict(case)
             c["nstar"] = case["nstar"] - 1
             yield c
+        if len(case.get("sentinel", {})) > 1:
+            for k in case["sentinel"]:
+                c = dict(case)
+                c["sentinel"] = {x: y for x, y in case["sentinel"].items() if x != k}
+                yield c
     else:
         for fld in ("pos", "star", "kw"):
             if case[fld]:
